@@ -59,6 +59,13 @@ def jobs(tier):
     J.append(conc("2,0,0,0", maxb=2, prog0=prog((K_ADD, 3)), prog1=prog((K_LOOKUP, 0), (K_WALKALL, 0)), **lz))
     J.append(conc("2,0,0,0", flags=3, hmap=1, count_commit_order=0, ninit=1, init_keys=0, prog0=prog((K_ADD, 1), (K_ADD, 2)),
                   prog1=prog((K_LOOKUP, 0), (K_WALKALL, 0))))
+    for b, env in REAL:
+        rp = dict(qs_attempts=1, wait_attempts=1)
+        J.append(Job(b, "seq", "0,0,0,0", dict(rp, len=5 if q else 6, keys=2, hmap=1, alpha_seq=1, nresize=12), env, workers=8))
+        J.append(Job(b, "seq", "1,0,0,0", dict(rp, len=4, keys=4, hmap=1, alpha_seq=1, nresize=6, flags=1, maxb=2), env, workers=8))
+        J.append(conc_real(b, env, "2,0,0,0", hmap=1, init=4, prog0=prog((K_RESIZE, 1)), prog1=rd, **TWO))
+        J.append(conc_real(b, env, "1,0,0,0" if q else "2,0,0,0", workers=16, hmap=1, init=1, min_partition_order=0, prog0=prog((K_RESIZE, 4)),
+                           prog1=rd, **TWO))
     return J
 
 
